@@ -13,7 +13,7 @@ from _griffe.collections import ModulesCollection
 from _griffe.exceptions import AliasResolutionError, CyclicAliasError
 from _griffe.mixins import DelMembersMixin, GetMembersMixin, SetMembersMixin, _get_parts
 from _griffe.models import Alias, Attribute, Class, Function, Module
-from vlib.ob import TIER, cover, fail, obligation, tiered
+from vlib.ob import TIER, cover, fail, obligation, tiered, prop
 from vlib.stubs import plain_error_messages, silence_logging
 
 STUBS = silence_logging() + plain_error_messages()
@@ -153,7 +153,7 @@ def _shards():
     pid="C16", name="one_step", timeout=tiered(280, 1500), shards=_shards,
     pre=lambda op, recv, form, val, s1, s2, s3, ra, rb, rr: all(len(s) <= 1 and (s == "" or s in SEG) for s in (s1, s2, s3)) and (TIER == "thorough" or rb == ra),
     drives=[SetMembersMixin.set_member, SetMembersMixin.__setitem__, DelMembersMixin.del_member, DelMembersMixin.__delitem__, GetMembersMixin.get_member, GetMembersMixin.__getitem__, _get_parts,
-            Alias.target.fget, Alias.target.fset, Alias.resolve_target, Alias._update_target_aliases],
+            prop(Alias, "target"), Alias.target.fset, Alias.resolve_target, Alias._update_target_aliases],
     bounds={"pre-state": "collection{m{f, C{x, k}, a->m.f, b->m.C}, n{g, r->m.C.x, s->m.a}}, each alias resolved or not", "operation": OPS, "receiver": "module m, class C, or the collection (key prefixed with 'm')",
             "key": "dotted string of 1..2 (thorough: 3) segments, or a 2-tuple; every segment a symbolic string: one of 'f','C','x','b','z' or empty", "value": tiered(VALS[:4], VALS), "quick restriction": "aliases a and b resolved together"},
     value_symbolic=["key segments s1,s2,s3", "which aliases are already resolved (ra, rb, rr)"], selectors=["operation, receiver, key form, kind of inserted value (driver-bound)"],
@@ -327,7 +327,7 @@ NEW_TARGETS = ["itself", "object at the alias's own path", "m.f", "m.C", "n.g"]
     pid="C16", name="retarget", timeout=tiered(200, 600),
     shards=lambda: [(f"alias={w}", None, [dict(which=w)]) for w in WHICH],
     pre=lambda which, target: 0 <= target < len(NEW_TARGETS),
-    drives=[Alias.target.fset, Alias.target.fget, Alias.final_target.fget],
+    drives=[Alias.target.fset, prop(Alias, "target"), prop(Alias, "final_target")],
     bounds={"alias": WHICH, "new target": NEW_TARGETS}, value_symbolic=["which object the alias is pointed at"], selectors=["which alias (driver-bound)"], stubs=STUBS,
     must_cover=["self-target-refused", "retargeted"],
     grid=lambda seed: [dict(which=w, target=t) for w in WHICH for t in range(len(NEW_TARGETS))],
